@@ -174,7 +174,9 @@ impl DataStorage {
         if self.committed_objects.contains_key(rev.digest()) {
             true
         } else {
-            matches!(self.read_object(rev), Ok(_obj))
+            // Only durable content counts: an object that merely sits in the (volatile)
+            // stage or cache of this replica is not available to a reopened replica
+            rev.is_empty() || rev.is_deleted() || rev.is_resolved() || rev.is_charcode()
         }
     }
 
